@@ -2,6 +2,7 @@ SPECIFICATION Spec
 CONSTANTS
   Kinds = {"apply"}
   Dims = {2, 3}
+  Wide = FALSE
   LmCfgs = {0, 1, 2, 3, 4, 5, 6, 7, 8, 9, 10}
 INVARIANT StructureKept
 INVARIANT VecRoundTrip
